@@ -1,5 +1,5 @@
 (* Properties/C18.v — stop, end-of-sequence and accepting status are mutually consistent *)
-From LLG Require Import Base Regex RegexProofs Trie StopCtrl StopCtrlProofs
+From LLG Require Import Base Regex RegexProofs Trie StopCtrl StopCtrlProofs StopRunProofs
                         Svob WalkM Lexer Earley Engine PureEngine TokParser MatcherProofs.
 
 (* ---- the stop-sequence controller ---- *)
@@ -56,6 +56,40 @@ Theorem C18_utf8_cut_bounds : forall data,
   (Forall (fun b => b < 128) data -> valid_utf8_len data = length data).
 Proof. exact valid_utf8_len_bounds. Qed.
 Print Assumptions C18_utf8_cut_bounds.
+
+(* ---- the whole run ---- *)
+(* a match completes: the text returned over the whole run is exactly the decoded text before the
+   first match to complete (the shortest one ending at that byte is removed), and the controller
+   is stopped *)
+Theorem C18_run_stops_at_first_match : forall tr S ts p n,
+  Forall (ordinary tr) ts ->
+  let text := concat (map (token tr) ts) in
+  match_ends_at S text p n ->
+  (forall p' n', match_ends_at S text p' n' -> (p <= p')%nat) ->
+  (forall n', match_ends_at S text p n' -> (n <= n')%nat) ->
+  concat (sc_run tr [] (Some S) sc_init ts) = firstn (p - n) text /\
+  sc_stopped (final_state tr S ts) = true.
+Proof. exact run_stops_at_first_match. Qed.
+Print Assumptions C18_run_stops_at_first_match.
+
+(* no match completes: not stopped, nothing lost *)
+Theorem C18_run_without_match : forall tr S ts,
+  Forall (ordinary tr) ts ->
+  let text := concat (map (token tr) ts) in
+  (forall p n, ~ match_ends_at S text p n) ->
+  sc_stopped (final_state tr S ts) = false /\
+  concat (sc_run tr [] (Some S) sc_init ts) ++ sc_pending (final_state tr S ts) = text.
+Proof. exact run_without_match. Qed.
+Print Assumptions C18_run_without_match.
+
+(* every returned piece is cut by the UTF-8 rule *)
+Theorem C18_returned_piece_is_utf8_cut : forall tr S st t o st',
+  sc_stopped st = false -> ordinary tr t ->
+  sc_commit tr [] (Some S) st t = (o, st') -> sc_stopped st' = false ->
+  exists avail, o = firstn (valid_utf8_len avail) (sc_pending st ++ token tr t) /\
+                (exists k, avail = firstn k (sc_pending st ++ token tr t)).
+Proof. exact returned_piece_is_utf8_cut. Qed.
+Print Assumptions C18_returned_piece_is_utf8_cut.
 
 (* ---- the matcher interface: invalid calls fail loudly and permanently ---- *)
 Theorem C18_failed_matcher_is_sticky : forall cx t, t_panicked t = true ->
